@@ -58,7 +58,10 @@ func (f *DoExternalSymbols) Call(s *slip.Scope, args slip.List, depth int) slip.
 	if !ok || len(sargs) == 0 {
 		slip.TypePanic(s, depth, "args", args[0], "list")
 	}
-	pkg := s.Get("*package*").(*slip.Package)
+	pkg, ok := s.Get("*package*").(*slip.Package)
+	if !ok {
+		slip.TypePanic(s, depth, "*package*", s.Get("*package*"), "package")
+	}
 	var (
 		sym   slip.Symbol
 		rform slip.Object
